@@ -455,7 +455,8 @@ def minimize_lbfgsb(
     # print(sf.scaling_factor)
 
     f0 *= sf.scaling_factor
-    grad *= sf.scaling_factor
+    # not in place: grad may be the caller's checkpoint.jac (possibly read-only)
+    grad = grad * sf.scaling_factor
     # Note, no need to further update anything because the scaling is handled by the
     # ScalarFunction instance
 
